@@ -1744,8 +1744,10 @@ class Datetime(Formatter, level=10, fmt="%Y-%m-%d %H:%M:%S.%f"):
         :returns: A validated hour string value that map with ``self.locale``
             attribute value.
         """
-        if self.level.slot[0] and self.locale and self.locale == "PM":
-            return str(int(value) + 12).rjust(2, "0")
+        if self.level.slot[0] and self.locale:
+            # 12 AM is midnight (00) and 12 PM is noon (12).
+            hour: int = int(value) % 12 + (12 if self.locale == "PM" else 0)
+            return str(hour).rjust(2, "0")
         return value.rjust(2, "0")
 
     def _default_locale(self) -> str:
